@@ -127,6 +127,8 @@ def shard_skew(sh, part):
     reps = 1 if sh.tier == 'quick' else 3
     for rep in range(reps):
         n = rng.choice([130000, 200000, 300000]) if sh.tier == 'quick' else rng.choice([150000, 400000, 1000000])
+        if part == 0 and rep == 0:
+            n = 1000000          # the top of the stated range, exactly (1/n is a representable threshold candidate)
         n_rare = rng.choice([500, 1500, 3000])
         for layout in ('constant-X', 'two-strata', 'giant+small'):
             Y = np.zeros(n, dtype=np.int32)
@@ -142,6 +144,23 @@ def shard_skew(sh, part):
                 X = np.zeros(n, dtype=np.int32)
                 X[nprng.choice(n, n // 50, replace=False)] = nprng.integers(1, 6, n // 50)
             observe_pair(sh, est, Y, X, 'huge-stratum-rare-classes/' + layout, sample=True)
+            if n >= 1000000:
+                break              # one layout at 10^6 keeps the quick tier short
+    # many strata (> 2^13 distinct values) mixing singletons and repeated values, in value order and shuffled
+    for rep in range(1 if sh.tier == 'quick' else 3):
+        n = rng.choice([40000, 60000])
+        kx = rng.choice([12000, 20000])
+        X = nprng.integers(0, kx, n).astype(np.int32)
+        Y = (X % rng.choice([2, 3, 7])).astype(np.int32)
+        if rng.random() < 0.5:
+            Y = np.where(nprng.random(n) < 0.1, nprng.integers(0, 5, n), Y).astype(np.int32)
+        observe_pair(sh, est, Y, X, 'many-strata-with-singletons', sample=True)
+    if part == 1 or sh.tier == 'thorough':
+        # more than 2^16 distinct classes on one side
+        n = 70000
+        Y = nprng.permutation(n).astype(np.int32)
+        X = (nprng.random(n) < 0.5).astype(np.int32)
+        observe_pair(sh, est, Y, X, 'more-than-2^16-classes', sample=True)
 
 
 def shard_dispatch(sh, part):
